@@ -268,3 +268,45 @@ def probe_clauses(node, log):
     for i in range(len(want)):
         out['visit_' + str(i)] = (log[i][0] == want[i][0] and same_obj(log[i][1], want[i][1])) if i < len(log) else False
     return out
+
+
+# ----------------------------------------------------------------- dispatch: which visit method a node reaches
+
+class KindProbe(DefaultTransformVisitor):
+    """every visit method answers with its table key instead of visiting: `_visit_expr(e)` / `_visit_statement(s)`
+    (the inherited MRO dispatch of fpy2/ast/visitor.py: Visitor) then tell which row of VISIT_ORDER governs a node.
+    `_visit_round` / `_visit_round_at` are the inherited delegations (to `_visit_unaryop` / `_visit_binaryop`)."""
+
+    def _visit_var(self, e, ctx): return 'Var'
+    def _visit_bool(self, e, ctx): return 'BoolVal'
+    def _visit_foreign(self, e, ctx): return 'ForeignVal'
+    def _visit_decnum(self, e, ctx): return 'Decnum'
+    def _visit_hexnum(self, e, ctx): return 'Hexnum'
+    def _visit_integer(self, e, ctx): return 'Integer'
+    def _visit_rational(self, e, ctx): return 'Rational'
+    def _visit_digits(self, e, ctx): return 'Digits'
+    def _visit_nullaryop(self, e, ctx): return 'NullaryOp'
+    def _visit_unaryop(self, e, ctx): return 'UnaryOp'
+    def _visit_binaryop(self, e, ctx): return 'BinaryOp'
+    def _visit_ternaryop(self, e, ctx): return 'TernaryOp'
+    def _visit_naryop(self, e, ctx): return 'NaryOp'
+    def _visit_call(self, e, ctx): return 'Call'
+    def _visit_compare(self, e, ctx): return 'Compare'
+    def _visit_tuple_expr(self, e, ctx): return 'TupleExpr'
+    def _visit_list_expr(self, e, ctx): return 'ListExpr'
+    def _visit_list_comp(self, e, ctx): return 'ListComp'
+    def _visit_list_ref(self, e, ctx): return 'ListRef'
+    def _visit_list_slice(self, e, ctx): return 'ListSlice'
+    def _visit_if_expr(self, e, ctx): return 'IfExpr'
+    def _visit_attribute(self, e, ctx): return 'Attribute'
+    def _visit_assign(self, stmt, ctx): return 'Assign'
+    def _visit_indexed_assign(self, stmt, ctx): return 'IndexedAssign'
+    def _visit_if1(self, stmt, ctx): return 'If1Stmt'
+    def _visit_if(self, stmt, ctx): return 'IfStmt'
+    def _visit_while(self, stmt, ctx): return 'WhileStmt'
+    def _visit_for(self, stmt, ctx): return 'ForStmt'
+    def _visit_context(self, stmt, ctx): return 'ContextStmt'
+    def _visit_assert(self, stmt, ctx): return 'AssertStmt'
+    def _visit_effect(self, stmt, ctx): return 'EffectStmt'
+    def _visit_return(self, stmt, ctx): return 'ReturnStmt'
+    def _visit_pass(self, stmt, ctx): return 'PassStmt'
